@@ -6,7 +6,9 @@
 // and no syntax error; the type the analyzer records for marked let initialisers must be the type
 // the rules assign. Reject side: every single-fault mutant (hv/mutate: one mutator per rule of
 // Appendix H, applied at every marked position) must receive at least one error-level diagnostic
-// or syntax error. All analyzer calls run in-process under recover; a panic is a C05 matter and
+// or syntax error. Generated families with a reference model of their own: control flow (flow.go),
+// global initialisers (ginit.go), container members (members.go), scoped declarations
+// (tyscope.go), import lists (imports.go). All analyzer calls run in-process under recover; a panic is a C05 matter and
 // makes the case inconclusive, never a C03 violation.
 package c03
 
@@ -38,6 +40,8 @@ func (c03) Info(tier string) fw.Info {
 			"control-flow programs (flow.go): statement bodies placed at every position that requires a value (function, closure, block, if/else, match arm, try/catch), judged by a reference model of which blocks can complete; " +
 			"global-initialiser programs (ginit.go): constant expression trees (list/object/option literals, operators, casts, indexing, empty list and none under an annotation) as global initialisers, every node of every tree replaced in turn by a global use / a call (reference model: constant iff every sub-expression is), with the same mutated trees as local lets in the base as control; " +
 			"container-member programs (members.go): every element-typed member of lists and options on pairs of receivers whose element types share their kind but differ inside, in every receiver form, with the value/annotation of the sibling receiver as near-miss mutant; " +
+			"scoped-declaration programs (tyscope.go): type aliases and variables declared at module level (aliases also imported) and again, with a right hand side of the same kind that differs inside, in the scope of every scope-opening construct (function body, block, then/else, while/for/loop body, closure body, match arm, try/catch, for variable, closure parameter) nested up to three deep; uses of the name in every position (annotation, inside [N] / ?N / { f: N }, closure parameter and result, local alias, cast, function signature) before, inside and after each scope, judged by a reference scope stack (the innermost preceding declaration wins), with the value of the shadowed declaration as near-miss mutant; " +
+			"import-list programs (imports.go): items of every kind (value, type, templ, trigger) in seeded order and mixture, braced / single / several statements / trailing comma, from the builtin module net, a user module (directly and through a second module) and a harness host module that offers all four kinds, every imported name used in the role of its kind; mutants: the prefix of another kind on every item, every item renamed / listed twice, every use written with the name of an item of another kind; " +
 			"each base must get 0 error diagnostics and the recorded type of every marked let initialiser must equal the generator's/author's type; " +
 			"every single-fault mutant (one mutator per rule of DESIGN Appendix H x every marked position of the base) must get >= 1 error diagnostic or syntax error. " +
 			"non-trivial = the base program was judged as expected (accepted, or rejected for the required-main cases) and, unless the case is accept-only, at least one mutant was analysed; " +
@@ -70,6 +74,9 @@ type Payload struct {
 	// while the host requires one) and must be rejected; Rule/Ctx name the broken rule.
 	ExpectReject bool   `json:"xr,omitempty"`
 	Rule         string `json:"r,omitempty"`
+	// Host: name of an extra builtin module the analyzer host offers beside the testing host's
+	// modules ("" none, HostKinds: imports.go).
+	Host string `json:"h,omitempty"`
 }
 
 func (c03) OnCrash(c fw.Case, cr fw.Crash) fw.Result {
@@ -77,13 +84,17 @@ func (c03) OnCrash(c fw.Case, cr fw.Crash) fw.Result {
 }
 
 // analyze runs the real analyzer under recover.
-func analyze(src drive.Sources, mainShall bool) (out drive.AnalyzeOut, panicked any) {
+func analyze(src drive.Sources, mainShall bool, host string) (out drive.AnalyzeOut, panicked any) {
 	defer func() {
 		if r := recover(); r != nil {
 			panicked = r
 		}
 	}()
-	out = drive.Analyze(src, "main", mainShall)
+	h := &drive.Host{Src: src}
+	if host == HostKinds {
+		h.ExtraImports = kindsImports()
+	}
+	out = drive.AnalyzeWith(h, src, "main", mainShall)
 	return out, nil
 }
 
@@ -300,7 +311,7 @@ func (c03) Run(c fw.Case) (res fw.Result) {
 		base[k] = v
 	}
 	res.Obs["base_programs"] = 1
-	out, pv := analyze(base, p.Main)
+	out, pv := analyze(base, p.Main, p.Host)
 	res.Evals = 1
 	if pv != nil {
 		res.Verdict = fw.Inconclusive
@@ -333,7 +344,7 @@ func (c03) Run(c fw.Case) (res fw.Result) {
 		if p.Group == "flow" {
 			// many small functions per program: show the one the first error points into
 			text += rejectedItem(base, out)
-		} else if p.Group == "members" || p.Group == "ginit" {
+		} else if p.Group == "members" || p.Group == "ginit" || p.Group == "scope" || p.Group == "imports" {
 			// one long function / many globals per program: show the line the first error points at
 			text += rejectedLine(base, out)
 		}
@@ -407,7 +418,7 @@ func (c03) Run(c fw.Case) (res fw.Result) {
 			src[k] = v
 		}
 		src[m.Module] = m.Source
-		mo, mpv := analyze(src, p.Main)
+		mo, mpv := analyze(src, p.Main, p.Host)
 		res.Evals++
 		ran++
 		res.Obs["mutants"]++
